@@ -137,10 +137,10 @@ Definition buffer_add_af (v : Z) (s : state) : state * bool :=
 (* ---------- actions: state transformers that may invoke callbacks ---------- *)
 Definition act := state -> state * list event.
 Definition skip : act := fun s => (s, []).
-Definition seq (f g : act) : act :=
+Definition andthen (f g : act) : act :=
   fun s => let (s1, e1) := f s in let (s2, e2) := g s1 in (s2, e1 ++ e2).
 Definition when (b : bool) (f : act) : act := if b then f else skip.
-Infix ";;" := seq (at level 61, left associativity).
+Infix ";;" := andthen (at level 61, left associativity).
 
 Definition emit (f : field) (a : arg) (sm : sample) (s : state) : list event :=
   if cb s f =? 0 then [] else [mkev f (cb s f) (ud s) a sm].
